@@ -268,7 +268,7 @@ theorem revert_k_correct_proof : RevertKCorrectStatement true := by
   intro db sc p0 h hdb hwf hr
   obtain ⟨l, h1, _, h3⟩ := runHistory_inv sc p0 h { db := db, sc := sc } p0 (init_inv db sc p0 hdb hwf) rfl hr
   refine ⟨l, h1, fun s r hl k blk before after hb hbe haf => ?_⟩
-  obtain ⟨_, _, blks, w1, w2, w3⟩ := h3 s r hl
+  obtain ⟨_, _, _, blks, w1, w2, w3⟩ := h3 s r hl
   simp only [toPlainStateReverts, w1, List.nil_append, List.getElem?_map] at hb
   cases hbk : blks[k]? with
   | none => rw [hbk] at hb; cases hb
@@ -287,7 +287,7 @@ theorem revert_k_literal_proof (db : BMap Info) (sc : Bool) (p0 : Plain) (h : Li
           PlainEq (applyRevertBlock false p0 (revertBlockToPlain b) after) before := by
   obtain ⟨l, h1, _, h3⟩ := runHistory_inv sc p0 h { db := db, sc := sc } p0 (init_inv db sc p0 hdb hwf) rfl hr
   refine ⟨l, h1, fun s r hl k b before after hb hlit hbe haf => ?_⟩
-  obtain ⟨_, _, blks, w1, w2, w3⟩ := h3 s r hl
+  obtain ⟨_, _, _, blks, w1, w2, w3⟩ := h3 s r hl
   simp only [w1, List.nil_append] at hb
   exact revert_block_correct false b p0 before after (w3 k b before after hb hbe haf) (Or.inr hlit)
 
